@@ -234,7 +234,16 @@ def call_real(ledger, net, loop, Transaction, raw, hc, resp, path, wire=None, re
 def judge(ctx, case, path, got, make_replay):
     ver, pos, height, exc = got
     kind = case['kind']
-    if exc is None and ver is case['verified'] and pos == case['position'] and (not ver or height == case['height']):
+    if exc is None and ver is case['verified'] and (not ver or (pos == case['position'] and height == case['height'])):
+        if not ver and pos != case['position']:
+            # what tx.position holds on a transaction that is NOT verified is not part of the property: spec drift only
+            ctx.leg('B', drift_position_of_unverified_tx=1)
+        return
+    if exc is None and ver is False and kind != 'none' and case['verified']:
+        # an ALTERED proof that happens to fold to the same root (position bits above the branch, a right-edge node paired
+        # with its own duplicate): the statement asks for altered proofs to fail, so refusing it is right; accepting it is
+        # tolerated (fold equality, DESIGN 8).  Only the genuine proof must be accepted.
+        ctx.leg('B', altered_fold_equal_proofs_refused=1)
         return
     replay = make_replay()
     if exc is not None:
